@@ -202,9 +202,30 @@ Proof.
     apply (IH obs (mkITS (i_now s) (i_pnl s) ts_default)); [exact Hp|reflexivity|exact Hraw|exact H4].
 Qed.
 
+Lemma sum_inst_sound t0 ops obs0 obs i :
+  sum_inst_corr t0 ops obs0 obs i = true -> sum_inst_prop ops obs i = true.
+Proof.
+  unfold sum_inst_corr, sum_inst_prop. destruct (nth_error (fst obs0) i) as [st0|]; [|discriminate].
+  destruct (proj_inst i ops obs) as [[po pb]|]; [|discriminate]. intros H.
+  apply andb_true_iff in H as [H _]. apply andb_true_iff in H as [_ H].
+  destruct (positive (first_inst_value po)) eqn:Hp; [|reflexivity].
+  apply (inst_sound_default po pb (inst_init t0)); [exact Hp|reflexivity|reflexivity|exact H].
+Qed.
+
+Lemma sum_asset_sound starts ops obs0 obs j :
+  sum_asset_corr starts ops obs0 obs j = true -> sum_asset_prop starts ops obs j = true.
+Proof.
+  unfold sum_asset_corr, sum_asset_prop. destruct (nth_error starts j) as [[[t tot] fr]|]; [|discriminate].
+  destruct (nth_error (snd obs0) j) as [st0|]; [|discriminate].
+  destruct (proj_asset j ops obs) as [[po pb]|]; [|discriminate]. intros H.
+  apply andb_true_iff in H as [H _]. apply andb_true_iff in H as [_ H].
+  destruct (positive (Some tot)) eqn:Hp; [|reflexivity]. cbn [positive] in Hp. apply positive_qc in Hp.
+  apply (asset_sound po pb (asset_init t (qc tot, qc fr)) (t, qc tot) []); [exact Hp|reflexivity|exact H].
+Qed.
+
 Theorem oracle_sound c : in_scope c = true -> corr_b c = true -> prop_b c = true.
 Proof.
-  destruct c as [start ops obs0 obs|init ds obs0 obs|init ds obs0 obs|[[t tot] fr] ops obs0 obs|t0 ops obs0 obs|sc w];
+  destruct c as [start ops obs0 obs|init ds obs0 obs|init ds obs0 obs|[[t tot] fr] ops obs0 obs|t0 ops obs0 obs|t0 n starts ops obs0 obs|sc w];
     cbn [in_scope corr_b prop_b]; intros Hs Hc.
   - apply andb_true_iff in Hc as [H0 Hc]. unfold gobs_matches in H0.
     apply andb_true_iff in H0 as [H0 Hg0]. apply andb_true_iff in H0 as [Hr0 _].
@@ -229,5 +250,9 @@ Proof.
     apply (asset_sound ops obs (asset_init t (qc tot, qc fr)) (t, qc tot) []); [exact Hs|reflexivity|exact Hc].
   - apply andb_true_iff in Hc as [_ Hc].
     apply (inst_sound_default ops obs (inst_init t0)); [exact Hs|reflexivity|reflexivity|exact Hc].
+  - apply andb_true_iff in Hc as [Hc Ha]. apply andb_true_iff in Hc as [_ Hi].
+    apply andb_true_iff. split; apply forallb_forall; intros k Hk.
+    + rewrite forallb_forall in Hi. apply (sum_inst_sound t0 ops obs0). apply Hi. exact Hk.
+    + rewrite forallb_forall in Ha. apply (sum_asset_sound starts ops obs0). apply Ha. exact Hk.
   - discriminate.
 Qed.
